@@ -259,8 +259,8 @@ def scan_source(src):
             return "macro_rules!" + max(m)[1]
         return f["name"] if f else "-"
 
-    def add(kind, i, text):
-        found.append({"fn": where(i), "kind": kind, "text": clip(text), "line": toks[i].line, "at": i})
+    def add(kind, i, text, name=""):
+        found.append({"fn": where(i), "kind": kind, "text": clip(text), "line": toks[i].line, "at": i, "name": name})
 
     for i, t in enumerate(toks):
         pv = toks[i - 1] if i > 0 else None
@@ -271,7 +271,7 @@ def scan_source(src):
                     and not (pv is not None and pv.t == "!" and i >= 2 and toks[i - 2].t == "macro_rules"):
                 args = gl.split_args(toks, i + 2)
                 k = 2 if t.t.endswith(("_eq", "_ne")) else 1
-                add("KMacro", i, "%s!(%s)" % (t.t, ", ".join(flat(toks[a:b]) for a, b in args[:k])))
+                add("KMacro", i, "%s!(%s)" % (t.t, ", ".join(flat(toks[a:b]) for a, b in args[:k])), t.t + "!")
                 continue
             if pv is not None and pv.k == "p" and pv.t in (".", "::") and (t.t in UNWRAPS or t.t in EXPECTS or
                                                                           (t.t in CALLS and pv.t == "." and
@@ -283,7 +283,7 @@ def scan_source(src):
                     kind = "KUnwrap" if t.t in UNWRAPS else "KExpect"
                     tail = pv.t + t.t + ("()" if nx is not None and nx.t == "(" else "")
                 a = chain_start(toks, i - 1)
-                add(kind, i, flat(toks[a:i - 1]) + tail)
+                add(kind, i, flat(toks[a:i - 1]) + tail, ("call " + t.t) if kind == "KCall" else t.t)
                 continue
             continue
         if t.k != "p":
@@ -345,6 +345,37 @@ def key(it):
     return (it["file"], it["fn"], it["kind"], ascii_only(it["text"]))
 
 
+STRONG = ("KMacro", "KUnwrap", "KExpect", "KCall")
+
+
+def panic_keys(items):
+    """the PINNED part: for every (file stem, enclosing fn) the number of sites per strong kind - macro name
+    (`assert_eq!`), unwrap / expect method name, `call <callee>` - without any expression text, files in scan
+    order, (fn, kind) sorted inside a file.  KIndex and KArith entries are not counted: a token-level list of them
+    changes with every harmless rewrite; they stay in [sites] as information."""
+    order, cnt = [], {}
+    for it in items:
+        if it["kind"] not in STRONG:
+            continue
+        k = (it["file"], it["fn"], it["name"])
+        if k not in cnt:
+            cnt[k] = 0
+            order.append(k)
+        cnt[k] += 1
+    files = []
+    for k in order:
+        if k[0] not in files:
+            files.append(k[0])
+    out = []
+    for f in files:
+        out += [(k[0], k[1], k[2], cnt[k]) for k in sorted(x for x in order if x[0] == f)]
+    return out
+
+
+def render_keys(keys):
+    return ";\n".join("  (%s, %s, %s, %d)" % (coq_string(a), coq_string(b), coq_string(c), n) for a, b, c, n in keys)
+
+
 MODELS = ("Lexer", "PText", "Parser", "Analysis")
 
 
@@ -372,8 +403,10 @@ def render(items):
            "   slice expressions E[..] (KIndex), std calls that panic on a bad argument (KCall), compound integer",
            "   updates and subtractions (KArith) - as (file stem, enclosing fn, kind, text with white space and",
            "   string literals normalised), per file in source order.  Line numbers are deliberately absent:",
-           "   moving code is harmless, a new or edited site changes [sites] (obligation C03_panic_inventory,",
-           "   Properties/C03.v; treatment of every entry by the models: Model/PanicMap.v).",
+           "   [sites] is INFORMATION (nothing is proved about it).  PINNED by the obligation C03_panic_inventory",
+           "   (Properties/C03.v) is [panic_keys]: per (file stem, fn) the count of sites of each strong kind - macro",
+           "   name, unwrap / expect, `call <callee>` - without expression text; index and arithmetic entries are not",
+           "   pinned.  Treatment of every pinned group by the models: Model/PanicMap.v.",
            "   [model_sites]: every `Definition site_*` and every literal `Panic <n>` of Model/Lexer.v, Model/PText.v,",
            "   Model/Parser.v, Model/Analysis.v, read from those files on the same run, with its value.",
            "   This committed copy is a snapshot so that a fresh clone builds. *)",
@@ -386,6 +419,10 @@ def render(items):
     out.append(";\n".join("  (%s, %s, %s,\n   %s)" % (coq_string(it["file"]), coq_string(it["fn"]), it["kind"],
                                                      coq_string(it["text"])) for it in items))
     out.append("].")
+    out.append("(* the pinned part (C03_panic_inventory): per (file stem, fn), the number of sites of every strong kind *)")
+    out.append("Definition panic_keys : list (string * string * string * nat) := [")
+    out.append(render_keys(panic_keys(items)))
+    out.append("]%nat.")
     out.append("Definition model_sites : list (string * N) := [")
     out.append(";\n".join('  ("%s.%s", %s)' % ms for ms in model_sites()))
     out.append("].")
@@ -403,33 +440,36 @@ def regenerate():
     return {"changed": changed, "items": items}
 
 
-ENTRY = re.compile(r'\(\s*"((?:[^"]|"")*)"\s*,\s*"((?:[^"]|"")*)"\s*,\s*(K[A-Za-z]+)\s*,\s*"((?:[^"]|"")*)"\s*\)')
+KEY = re.compile(r'\(\s*"((?:[^"]|"")*)"\s*,\s*"((?:[^"]|"")*)"\s*,\s*"((?:[^"]|"")*)"\s*,\s*([0-9]+)\s*\)')
 
 
-def expected_sites():
+def expected_keys():
     """the list in the statement of C03_panic_inventory (the single place where the expectation lives)"""
     src = open(os.path.join(common.COQ, "Properties/C03.v"), encoding="utf-8").read()
-    m = re.search(r"Theorem\s+C03_panic_inventory\s*:\s*PanicSites\.sites\s*=\s*\[(.*?)\](?:%string)?\s*\.\s*Proof",
+    m = re.search(r"Theorem\s+C03_panic_inventory\s*:\s*PanicSites\.panic_keys\s*=\s*\[(.*?)\]\s*(?:%nat)?\s*\.\s*Proof",
                   src, flags=re.S)
     if not m:
         return None
     q = lambda s: s.replace('""', '"')  # noqa: E731
-    return [(q(a), q(b), k, q(c)) for a, b, k, c in ENTRY.findall(m.group(1))]
+    return [(q(a), q(b), q(c), int(n)) for a, b, c, n in KEY.findall(m.group(1))]
 
 
 def diff(items, expected):
-    """(new, gone): entries of the source that the theorem does not list (with their location), and the converse;
-    the two lists are aligned as sequences, so a changed entry is reported where it is"""
-    import difflib
-    have = [key(it) for it in items]
-    exp = list(expected or [])
+    """(new, gone): groups whose count grew (with the sites of the group as they are now: file:line and text) and
+    groups whose count shrank, relative to the statement of C03_panic_inventory"""
+    have = {(a, b, c): n for a, b, c, n in panic_keys(items)}
+    exp = {(a, b, c): n for a, b, c, n in (expected or [])}
     new, gone = [], []
-    for op, i1, i2, j1, j2 in difflib.SequenceMatcher(None, exp, have, autojunk=False).get_opcodes():
-        if op in ("replace", "delete"):
-            gone += ["src/%s.rs fn %s: %s %s" % (e[0], e[1], e[2][1:].lower(), e[3]) for e in exp[i1:i2]]
-        if op in ("replace", "insert"):
-            new += ["src/%s.rs:%d fn %s: %s %s" % (it["file"], it["line"], it["fn"], it["kind"][1:].lower(), it["text"])
-                    for it in items[j1:j2]]
+    for k in sorted(set(have) | set(exp)):
+        h, e = have.get(k, 0), exp.get(k, 0)
+        if h == e:
+            continue
+        now = ["src/%s.rs:%d %s" % (it["file"], it["line"], it["text"]) for it in items
+               if it["kind"] in STRONG and (it["file"], it["fn"], it["name"]) == k]
+        msg = "src/%s.rs fn %s: %s x%d -> x%d%s" % (k[0], k[1], k[2], e, h, (" (now: " + " | ".join(now) + ")") if now else "")
+        (new if h > e else gone).append(msg)
+    if not new and not gone and expected is not None and [tuple(x) for x in expected] != panic_keys(items):
+        gone.append("same groups in a different order")
     return new, gone
 
 
@@ -438,9 +478,7 @@ if __name__ == "__main__":
         sys.stdout.write(render(scan_tree()))
         sys.exit(0)
     if len(sys.argv) > 1 and sys.argv[1] == "--theorem":
-        its = scan_tree(sys.argv[2] if len(sys.argv) > 2 else None)
-        print(";\n".join("  (%s, %s, %s,\n   %s)" % (coq_string(it["file"]), coq_string(it["fn"]), it["kind"],
-                                                    coq_string(it["text"])) for it in its))
+        print(render_keys(panic_keys(scan_tree(sys.argv[2] if len(sys.argv) > 2 else None))))
         sys.exit(0)
     if len(sys.argv) > 1:
         its = scan_tree(sys.argv[1])
